@@ -521,6 +521,20 @@ Theorem C08_registered_pattern_guards_products :
     exists m, glob_check gm (globs st) lbl ps = Err m.
 Proof. exact registered_pattern_guards_products. Qed.
 
+(* Either order, glob versus glob (ANY two registrations: the same or different steps, the same or
+   different pattern texts and constraints; any `ow`, `gr`): each acceptable on its own => accepted
+   in both orders, final states equal up to the order of the two new rows; and the first order
+   yields exactly the old table followed by the two rows (none hides or replaces the other). *)
+Theorem C08_glob_glob_commute :
+  forall gm ow gr st s1 p1 u1 m1 s2 p2 u2 m2,
+    accepted (step gm ow gr st (RqGlob s1 p1 u1 m1)) = true ->
+    accepted (step gm ow gr st (RqGlob s2 p2 u2 m2)) = true ->
+    both_equiv (run gm ow gr st [RqGlob s1 p1 u1 m1; RqGlob s2 p2 u2 m2])
+               (run gm ow gr st [RqGlob s2 p2 u2 m2; RqGlob s1 p1 u1 m1]) /\
+    run gm ow gr st [RqGlob s1 p1 u1 m1; RqGlob s2 p2 u2 m2] =
+      Ok (with_globs st (globs st ++ [row_of gm s1 p1 u1 m1; row_of gm s2 p2 u2 m2])).
+Proof. exact glob_glob_commute. Qed.
+
 (* Whole life cycle of the rows (model/GlobRows.v; the writers of the table are enumerated from
    the source by the translator): a registration survives every operation sequence that contains
    no removal path of its step (Step.reset_for_rerun, deletion of the detached step node) ... *)
